@@ -484,6 +484,7 @@ def _folded_input(env, ns, extra):
         mask.flat[e] = True
     ids = ['p%d' % a for a in range(len(ns))]
     fs = dadi.Spectrum(d, mask=mask.copy(), mask_corners=True, data_folded=True, pop_ids=ids)
+    fs.extrap_x = env.const(Fr(1, 7))
     return fs, d, mask, ids
 
 
@@ -525,6 +526,8 @@ def make_folded(ns, which, nextra):
                     continue
                 env.holds(tag + '/mask', bool(np.all(np.ma.getmaskarray(p) == efm)))
                 env.holds(tag + '/folded-flag', p.folded is True)
+                env.holds(tag + '/labels kept %r' % (p.pop_ids,), p.pop_ids is not None and list(p.pop_ids) == list(ids))
+                env.holds(tag + '/extrap_x kept', getattr(p, 'extrap_x', None) is fs.extrap_x)
                 for j in np.ndindex(*p.shape):
                     if not efm[j]:
                         _eq(env, '%s/e%s' % (tag, list(j)), np.ma.getdata(p)[j], ef[j], seen)
